@@ -223,35 +223,41 @@ func init() {
 			prefixFilter(c.rule("R30", ruleR30), "R30", "insertion path of the array-backed loaders: Add grows the list by exactly the added values", 1, "R30:lists/arraylist.(*List).Add"))
 	}}
 	properties["C13"] = propDef{run: func(c *Ctx) *PropertyRun {
-		return pr("other", "Decided: (R18) for the three sets, Intersection has one loop per operand that adds the current element iff the other operand contains it (both arms, selected by comparing sizes), Union adds every element of both operands in two consecutive loops, Difference adds an element of the receiver iff the argument does not contain it; membership is tested on the right operand with the current element; the result is built by the set's constructor (TreeSet: with the operands' comparator, loops reachable only after the comparators were found identical); (R1) neither operand is written on any path — in particular when both are the same object; (R2d) the result embeds no pointer, slice or map of an operand. Not decided: membership exactness beyond the arm structure (rests on Contains/Add, C04)."+notBehaviour,
-			c.rule("R18", ruleR18), c.rule("R2d", ruleR2d),
-			filter(c.rule("R1", ruleR1), "R1", "PURE: set algebra writes no operand", 9, func(o Obligation) bool {
-				return strings.HasSuffix(o.Key, ").Intersection") || strings.HasSuffix(o.Key, ").Union") || strings.HasSuffix(o.Key, ").Difference")
-			}), controlFor(c, "R1", "R2d"))
+		return pr("other", "Decided: (R18) for the three sets, Intersection has one loop per operand that adds the current element iff the other operand contains it (both arms, selected by comparing sizes), Union adds every element of both operands in two consecutive loops, Difference adds an element of the receiver iff the argument does not contain it; membership is tested on the right operand with the current element; the result is built by the set's constructor (TreeSet: with the operands' comparator, loops reachable only after the comparators were found identical); (R1) neither operand is written on any path — in particular when both are the same object; (R2d) the result embeds no pointer, slice or map of an operand. Not decided: membership exactness beyond the arm structure (rests on Contains/Add, C04). Inherited: the set operations are built from the sets' own Add/Contains/iteration — all clauses of C04 (including the red-black tree and the order list under TreeSet and LinkedHashSet) are part of this check."+notBehaviour,
+			inherited(c, []*RuleResult{
+				c.rule("R18", ruleR18), c.rule("R2d", ruleR2d),
+				filter(c.rule("R1", ruleR1), "R1", "PURE: set algebra writes no operand", 9, func(o Obligation) bool {
+					return strings.HasSuffix(o.Key, ").Intersection") || strings.HasSuffix(o.Key, ").Union") || strings.HasSuffix(o.Key, ").Difference")
+				}), controlFor(c, "R1", "R2d"),
+			}, "C04")...)
 	}}
 	properties["C14"] = propDef{run: func(c *Ctx) *PropertyRun {
-		return pr("other", "Decided: (R17) all 48 enumerable functions are the canonical loop over the receiver's own iterator: one Next() per round, f receives exactly (Index()|Key(), Value()) of the current position, Each continues unconditionally, Any/All decide at the first hit/miss, Find returns the current pair at the first hit and (-1|zero, zero) otherwise, Select inserts the current pair iff f accepted it, Map inserts f's result, and the derived container is built with the receiver's comparator(s) in role order; (R1) the receiver is never written; (R2d) the result shares no state with it. Not decided: the containers' own insertion semantics (C01/C03/C04)."+notBehaviour,
-			c.rule("R17", ruleR17), c.rule("R2d", ruleR2d),
-			filter(c.rule("R1", ruleR1), "R1", "PURE: enumerable functions write nothing shared", 48, func(o Obligation) bool {
-				for _, m := range []string{").Each", ").Any", ").All", ").Find", ").Select", ").Map"} {
-					if strings.HasSuffix(o.Key, m) {
-						return true
+		return pr("other", "Decided: (R17) all 48 enumerable functions are the canonical loop over the receiver's own iterator: one Next() per round, f receives exactly (Index()|Key(), Value()) of the current position, Each continues unconditionally, Any/All decide at the first hit/miss, Find returns the current pair at the first hit and (-1|zero, zero) otherwise, Select inserts the current pair iff f accepted it, Map inserts f's result, and the derived container is built with the receiver's comparator(s) in role order; (R1) the receiver is never written; (R2d) the result shares no state with it. Not decided: the containers' own insertion semantics (C01/C03/C04). Inherited: the enumerable functions walk the containers' own iterators — the cursor protocol of C08 (all 18 iterator types) is part of this check."+notBehaviour,
+			inherited(c, []*RuleResult{
+				c.rule("R17", ruleR17), c.rule("R2d", ruleR2d),
+				filter(c.rule("R1", ruleR1), "R1", "PURE: enumerable functions write nothing shared", 48, func(o Obligation) bool {
+					for _, m := range []string{").Each", ").Any", ").All", ").Find", ").Select", ").Map"} {
+						if strings.HasSuffix(o.Key, m) {
+							return true
+						}
 					}
-				}
-				return false
-			}))
+					return false
+				}),
+			}, "C08")...)
 	}}
 	properties["C15"] = propDef{run: func(c *Ctx) *PropertyRun {
-		return pr("other", "Decided: (R12f) on all 21 containers Empty() ≡ Size()==0, Full() ≡ Size()==capacity and the slice returned by Values()/Keys() is allocated with length Size() — all derive from one size term after forwarder inlining; (R12b–e) the six cached counters take only the forms old±1, old+len, 0, recomputation; decrements are guarded by success (never negative), increments travel with allocate-and-link; (R12cfg) comparator / B-tree order / ring capacity are written only while constructing a fresh container, so Clear keeps them; (R12clear) Clear resets what Size() and the traversal start from and forwards to Clear of every contained container; (R12str) String() starts with the container's documented name; (R1) every observer is pure. Not decided: 'behaves exactly like a fresh one after Clear' beyond those resets (requiring every field to be reset would alarm on benign edits — DESIGN §5)."+notBehaviour,
-			c.rule("R12", ruleR12), c.rule("R12g", ruleR12g), c.rule("R16", ruleR16), c.rule("R30", ruleR30),
-			filter(c.rule("R1", ruleR1), "R1", "PURE: Size/Empty/Values/Keys/String write nothing", 99, func(o Obligation) bool {
-				for _, m := range []string{").Size", ").Empty", ").Values", ").Keys", ").String", ").Full"} {
-					if strings.HasSuffix(o.Key, m) {
-						return true
+		return pr("other", "Decided: (R12f) on all 21 containers Empty() ≡ Size()==0, Full() ≡ Size()==capacity and the slice returned by Values()/Keys() is allocated with length Size() — all derive from one size term after forwarder inlining; (R12b–e) the six cached counters take only the forms old±1, old+len, 0, recomputation; decrements are guarded by success (never negative), increments travel with allocate-and-link; (R12cfg) comparator / B-tree order / ring capacity are written only while constructing a fresh container, so Clear keeps them; (R12clear) Clear resets what Size() and the traversal start from and forwards to Clear of every contained container; (R12str) String() starts with the container's documented name; (R1) every observer is pure. Not decided: 'behaves exactly like a fresh one after Clear' beyond those resets (requiring every field to be reset would alarm on benign edits — DESIGN §5). Inherited: Size/Empty/Values/Keys agree only on consistent states — the structural clauses of C01, C03, C04, C05, C06, C09, C10 that keep every container's state consistent are part of this check."+notBehaviour,
+			inherited(c, []*RuleResult{
+				c.rule("R12", ruleR12), c.rule("R12g", ruleR12g), c.rule("R16", ruleR16), c.rule("R30", ruleR30),
+				filter(c.rule("R1", ruleR1), "R1", "PURE: Size/Empty/Values/Keys/String write nothing", 99, func(o Obligation) bool {
+					for _, m := range []string{").Size", ").Empty", ").Values", ").Keys", ").String", ").Full"} {
+						if strings.HasSuffix(o.Key, m) {
+							return true
+						}
 					}
-				}
-				return false
-			}))
+					return false
+				}),
+			}, "C01", "C03", "C04", "C05", "C06", "C09", "C10")...)
 	}}
 	properties["C16"] = propDef{run: func(c *Ctx) *PropertyRun {
 		return pr("proof", "Decides the aliasing sentences completely modulo the trusted base: Values()/Keys() of all containers return a slice allocated by the call that is neither rooted in nor retained by any parameter/global (R2a); no exported function retains a caller's slice argument in container memory, a global or its result (R2b); the slice GetSortedValues[Func] sorts is fresh for the CHA join of all Values() implementations and the functions write nothing else (R2c, R1). Not decided: that the output is sorted (contract of slices.Sort, trusted).",
@@ -261,10 +267,12 @@ func init() {
 			}), controlFor(c, "R2a", "R2b", "R2c"))
 	}}
 	properties["C17"] = propDef{run: func(c *Ctx) *PropertyRun {
-		return pr("other", "Decided: (R3) no library function can reach fmt.Print*/print/println/log/os.Stdout/os.Stderr — complete for the silence clause; (R4) explicit panics/exits exist only in the two documented constructors, guarded by the documented bound — complete for explicit panics; (R5a) every index parameter of the three lists is range-checked before use; (R6) a Go-map field that is assigned to can never be nil; (R7) an empty variadic list leaves no nil pointer to dereference; (R8a) the JSON decoder never writes live container state (it cannot corrupt it into a panicking one); (R19b-wrap/index) in every method of the ring, loaders included, start and end are only reset to 0 or advanced with their wrap, and the ring slice is indexed only by them or modulo the capacity — no index can leave the slice; (R31) the arbitrary byte string given to the 42 loaders is only handed to the standard library or another loader, never indexed or sliced by library code. Not decided: implicit panics that depend on heap-shape invariants (nil sibling in deleteCase*, Children[index] in the B-tree — a generic may-be-nil analysis drowns in false alarms there and a sound one needs the tree invariants); termination of the loops."+notBehaviour,
-			c.rule("R3", ruleR3), c.rule("R4", ruleR4), c.rule("R5", ruleR5), c.rule("R6", ruleR6), c.rule("R7", ruleR7),
-			prefixFilter(c.rule("R8", ruleR8), "R8", "LOADER: the decoder never targets live state (R8a)", 14, "R8a:"), prefixFilter(c.rule("R21b", ruleR21b), "R21b", "AVL direction arguments / child indices are 0/1, ±1", 1, "R21b:avl.directions"),
-			prefixFilter(c.rule("R19", ruleR19), "R19", "RING: start/end stay below capacity in every method (wrap), and the ring slice is indexed only through them", 2, "R19b-wrap:", "R19b-index:"), c.rule("R31", ruleR31), controlFor(c, "R3", "R4", "R6", "R7", "R8"))
+		return pr("other", "Decided: (R3) no library function can reach fmt.Print*/print/println/log/os.Stdout/os.Stderr — complete for the silence clause; (R4) explicit panics/exits exist only in the two documented constructors, guarded by the documented bound — complete for explicit panics; (R5a) every index parameter of the three lists is range-checked before use; (R6) a Go-map field that is assigned to can never be nil; (R7) an empty variadic list leaves no nil pointer to dereference; (R8a) the JSON decoder never writes live container state (it cannot corrupt it into a panicking one); (R19b-wrap/index) in every method of the ring, loaders included, start and end are only reset to 0 or advanced with their wrap, and the ring slice is indexed only by them or modulo the capacity — no index can leave the slice; (R31) the arbitrary byte string given to the 42 loaders is only handed to the standard library or another loader, never indexed or sliced by library code. Not decided: implicit panics that depend on heap-shape invariants (nil sibling in deleteCase*, Children[index] in the B-tree — a generic may-be-nil analysis drowns in false alarms there and a sound one needs the tree invariants); termination of the loops. Inherited: an operation on an inconsistent state dereferences nil or indexes out of range — the structural clauses that keep every container and iterator consistent (C01, C03–C06, C08–C10) are part of this check."+notBehaviour,
+			inherited(c, []*RuleResult{
+				c.rule("R3", ruleR3), c.rule("R4", ruleR4), c.rule("R5", ruleR5), c.rule("R6", ruleR6), c.rule("R7", ruleR7),
+				prefixFilter(c.rule("R8", ruleR8), "R8", "LOADER: the decoder never targets live state (R8a)", 14, "R8a:"), prefixFilter(c.rule("R21b", ruleR21b), "R21b", "AVL direction arguments / child indices are 0/1, ±1", 1, "R21b:avl.directions"),
+				prefixFilter(c.rule("R19", ruleR19), "R19", "RING: start/end stay below capacity in every method (wrap), and the ring slice is indexed only through them", 2, "R19b-wrap:", "R19b-index:"), c.rule("R31", ruleR31), controlFor(c, "R3", "R4", "R6", "R7", "R8"),
+			}, "C01", "C03", "C04", "C05", "C06", "C09", "C10", "C08")...)
 	}}
 	properties["C18"] = propDef{run: func(c *Ctx) *PropertyRun {
 		return pr("proof", "Decides the property completely modulo the trusted base: a conservative interprocedural effect/alias analysis (E1) over go/ssa shows that every read-only operation of every container, node and iterator type performs no store into container/node memory, into an iterator it did not create, or into a global, on any path and for all inputs; by the Go memory model (a data race needs a write) concurrent readers cannot race, and each call's result is a function of memory nobody writes. R1b: every call through a func value passes only opaque elements; R1c: iterators are never stored in shared memory; A5 scan: no unsafe/cgo/linkname.",
